@@ -4,6 +4,7 @@ import HcipyVerif.Lemmas.SchedulerTile
 import HcipyVerif.Lemmas.SchedulerTerm
 import HcipyVerif.Lemmas.SchedulerHist
 import HcipyVerif.Lemmas.SchedulerStrong
+import HcipyVerif.Lemmas.SchedulerClock
 
 /-!
 # C20 — Time evolution fires each scheduled callback once, in order, at its time
@@ -1140,5 +1141,108 @@ theorem advance_decimal_bridge (s : Sys) (dt : Rat) (hd : IsDouble dt) :
 /-- the flag `sorted=` printed by the driver op `hist` (and compared with the real code's executed
 sequence) decides the `Sorted` of `fired_sorted` / `history_inv` -/
 theorem sortedB_spec (l : List Entry) : sortedB l = true ↔ Sorted l := sortedB_iff l
+
+/-! ### Round 4 — callbacks that read the clock (`add_callback(self.t + period, …)`, the docstring idiom)
+
+The clock a callback sees may rest up to `eps` below the callback's own time, so what a
+clock-reading callback schedules is not a function of its queue entry: `loopC` / `evolveUntilC` /
+`stepOpC` / `runOpsC` hand the clock to the callbacks (`kidsC clock e`).  The driver runs these on
+every history and compares them with the real code; the theorems below say that each such run IS a
+run of `loop` / `evolveUntil` / `runOps` — the objects of all theorems above — for an entry-only
+`kids` (the table of what each executed callback scheduled, `tableKids (fireTable …)`, which the
+driver also executes and checks: `same=`, `replay=`).  So every theorem above that holds for all
+`kids` holds of histories with clock-reading callbacks (`loopC_transfer`). -/
+
+/-- callbacks that ignore the clock: `loopC` is `loop` -/
+theorem loopC_const (kids : Entry → List (Rat × Nat)) (T : Rat) (fuel : Nat) (s : Sys) :
+    loopC (fun _ => kids) T fuel s = loop kids T fuel s := loopC_const' kids T fuel s
+
+/-- An entry-only `kids` that agrees with the clock-reading callbacks on every callback the run
+executes, at the clock it saw, produces the very same run (status, state, trace). -/
+theorem loopC_eq_loop_of_agree (kidsC : Rat → Entry → List (Rat × Nat)) (kids : Entry → List (Rat × Nat))
+    (T : Rat) (fuel : Nat) (s : Sys)
+    (h : ∀ e clk, Event.fire e clk ∈ (loopC kidsC T fuel s).trace → kids e = kidsC clk e) :
+    loop kids T fuel s = loopC kidsC T fuel s := loopC_eq_loop_of_agree' kidsC kids T fuel s h
+
+/-- **Every run with clock-reading callbacks is a run of `loop`** for some entry-only `kids`, from
+any state a history can reach (`InvQ`: no callback is executed twice, so "what it scheduled at the
+clock it saw" is a function of the entry). -/
+theorem loopC_exists_kids (kidsC : Rat → Entry → List (Rat × Nat)) (T : Rat) (fuel : Nat) (s : Sys)
+    (hi : InvQ s) : ∃ kids : Entry → List (Rat × Nat), loop kids T fuel s = loopC kidsC T fuel s :=
+  loopC_exists_kids' kidsC T fuel s hi
+
+/-- **Transfer**: whatever holds of the runs of `loop` for all entry-only `kids` holds of the run
+with clock-reading callbacks. -/
+theorem loopC_transfer (kidsC : Rat → Entry → List (Rat × Nat)) (T : Rat) (fuel : Nat) (s : Sys)
+    (hi : InvQ s) (P : Run → Prop) (hP : ∀ kids, P (loop kids T fuel s)) : P (loopC kidsC T fuel s) := by
+  obtain ⟨K, hK⟩ := loopC_exists_kids' kidsC T fuel s hi
+  rw [← hK]; exact hP K
+
+/-- exactly once (nothing is lost, nothing runs twice) with clock-reading callbacks — by transfer -/
+theorem clockC_exactly_once (kidsC : Rat → Entry → List (Rat × Nat)) (T : Rat) (fuel : Nat) (s : Sys)
+    (hi : InvQ s) (hok : (loopC kidsC T fuel s).status = .ok) :
+    (fired (loopC kidsC T fuel s).trace).Nodup ∧
+    ∀ q ∈ s.queue, (q.time < T → q ∈ fired (loopC kidsC T fuel s).trace) ∧
+      (T ≤ q.time → q ∈ (loopC kidsC T fuel s).s.queue) := by
+  revert hok
+  apply loopC_transfer kidsC T fuel s hi
+    (fun r => r.status = .ok → (fired r.trace).Nodup ∧
+      ∀ q ∈ s.queue, (q.time < T → q ∈ fired r.trace) ∧ (T ≤ q.time → q ∈ r.s.queue))
+  intro K hok
+  exact ⟨fired_nodup K T fuel s hi, queued_fired_or_pending K T fuel s hi hok⟩
+
+/-- the final clock, exactly, and the clock lag at every callback, with clock-reading callbacks -/
+theorem clockC_final_clock (kidsC : Rat → Entry → List (Rat × Nat)) (T : Rat) (fuel : Nat) (s : Sys)
+    (hi : InvQ s) (hok : (loopC kidsC T fuel s).status = .ok) :
+    (loopC kidsC T fuel s).s.t =
+      if eps < T - lastFireClock s.t (loopC kidsC T fuel s).trace then T
+      else lastFireClock s.t (loopC kidsC T fuel s).trace := by
+  revert hok
+  apply loopC_transfer kidsC T fuel s hi
+    (fun r => r.status = .ok → r.s.t = if eps < T - lastFireClock s.t r.trace then T else lastFireClock s.t r.trace)
+  intro K hok
+  exact final_clock_exact K T fuel s hok
+
+/-- **Replay by table** (what the driver executes and prints as `same=`): the table of what each
+executed callback scheduled — preceded by any rows `pre` of callbacks this run does not execute —
+read as entry-only callbacks makes `loop` reproduce the run. -/
+theorem loopC_eq_loop_table (kidsC : Rat → Entry → List (Rat × Nat)) (T : Rat) (fuel : Nat) (s : Sys)
+    (hi : InvQ s) (pre : List (Entry × List (Rat × Nat)))
+    (hpre : ∀ p ∈ pre, p.1 ∉ fired (loopC kidsC T fuel s).trace) :
+    loop (tableKids (pre ++ fireTable kidsC (loopC kidsC T fuel s).trace)) T fuel s =
+      loopC kidsC T fuel s := loopC_eq_loop_table' kidsC T fuel s hi pre hpre
+
+theorem evolveUntilC_eq_evolveUntil_table (kidsC : Rat → Entry → List (Rat × Nat)) (fuel : Nat) (s : Sys)
+    (T : Rat) (hi : InvQ s) :
+    evolveUntil (tableKids (fireTable kidsC (evolveUntilC kidsC fuel s T).trace)) fuel s T =
+      evolveUntilC kidsC fuel s T := by
+  have := evolveUntilC_eq_table' kidsC fuel s T hi [] (by simp)
+  simpa using this
+
+/-- every history with clock-reading callbacks keeps the invariant `InvC`: the queue invariant, and
+the callbacks in the table have been executed (not queued, counter used up) -/
+theorem history_invC (kidsC : Rat → Entry → List (Rat × Nat)) (fuel : Nat) (ops : List Op) :
+    InvC (runOpsC kidsC fuel hinitC ops) :=
+  (runOpsC_eq_runOps' kidsC fuel ops hinitC invC_init).2.2
+
+/-- **One call in a history**: `stepOpC` (run by the driver) advances the history by `stepOp` with
+the table; state and trace are those of the run with clock-reading callbacks. -/
+theorem stepOpC_evolve_run (kidsC : Rat → Entry → List (Rat × Nat)) (fuel : Nat) (ops : List Op) (T : Rat) :
+    (stepOpC kidsC fuel (runOpsC kidsC fuel hinitC ops) (.evolve T)).h.s =
+      (evolveUntilC kidsC fuel (runOpsC kidsC fuel hinitC ops).h.s T).s ∧
+    (stepOpC kidsC fuel (runOpsC kidsC fuel hinitC ops) (.evolve T)).h.trace =
+      (runOpsC kidsC fuel hinitC ops).h.trace ++
+        (evolveUntilC kidsC fuel (runOpsC kidsC fuel hinitC ops).h.s T).trace :=
+  stepOpC_evolve' kidsC fuel _ (history_invC kidsC fuel ops) T
+
+/-- **Whole histories** (what the driver checks as `replay=`): the history produced with
+clock-reading callbacks is the history `runOps` produces with ONE entry-only `kids` — the final
+table.  Hence `history_invQ`, `history_conservation`, `history_origin`,
+`history_call_exactly_once`, `history_evolve_exactly_once`, `runOps_fuel_mono` (all: for every
+`kids`) are statements about `(runOpsC kidsC fuel hinitC ops).h`. -/
+theorem runOpsC_eq_runOps (kidsC : Rat → Entry → List (Rat × Nat)) (fuel : Nat) (ops : List Op) :
+    runOps (tableKids (runOpsC kidsC fuel hinitC ops).tbl) fuel hinit ops =
+      (runOpsC kidsC fuel hinitC ops).h :=
+  (runOpsC_eq_runOps' kidsC fuel ops hinitC invC_init).2.1
 
 end HcipyVerif.Scheduler
